@@ -292,6 +292,7 @@ type mScenario struct {
 	AddsPer  int      `json:"addsper"`
 	Close    bool     `json:"close"`
 	LateAdd  bool     `json:"lateadd"` // one more Add after Close has returned
+	NilMod   int      `json:"nilmod"`  // > 0: getters whose id is a multiple of it report "nothing to write"
 }
 
 func mRun(sc *mScenario) ([]mEvent, map[string]interface{}) {
@@ -327,10 +328,18 @@ func mRun(sc *mScenario) ([]mEvent, map[string]interface{}) {
 			for k := 1; k <= sc.AddsPer; k++ {
 				id := a*10 + k
 				s.ev("AddCall", "", id, 0, "")
-				q.Add(func() (netpoll.Writer, bool) {
-					s.ev("Run", "", id, 0, "")
-					return netpoll.NewLinkBuffer(), false
-				})
+				if sc.NilMod > 0 && id%sc.NilMod == 0 {
+					// a getter with nothing to write (isNil): invoked, but nothing is appended
+					q.Add(func() (netpoll.Writer, bool) {
+						s.ev("RunNil", "", id, 0, "")
+						return nil, true
+					})
+				} else {
+					q.Add(func() (netpoll.Writer, bool) {
+						s.ev("Run", "", id, 0, "")
+						return netpoll.NewLinkBuffer(), false
+					})
+				}
 				s.ev("AddRet", "", id, 0, "")
 			}
 		})
